@@ -1043,3 +1043,47 @@ def _machine_scan_breaks_early(p):
         raise M.Stale('Machine.worker non-blocking first-available scan not found')
     return {N_MAC: s.replace(old, '                    for edge in self.out_edges:\n                        if edge.can_put():\n                            out_edge_index_to_put = edge\n                        break\n', 1)}
 fire('C09', 'machine-scan-stops-at-first-edge (seed C09-c)', 'C09.R6', 'scan-exhausted', _machine_scan_breaks_early)
+
+# ---- seed C11-d: "nothing to move" shortcut in a cancellation
+_FLT_SKIP = lambda extra: (lambda p: M.insert_after(p, S_FLT, 'FleetStore.reserve_get_cancel', M.stmt_calling('self.reserved_events.pop'),
+                                                      'if ev_idx == len(self.reserved_events):\n' + extra + '    return True'))
+fire('C04', 'fleet-cancel-shortcut-skips-the-wakeup (seed C11-d)', 'C04.R1', 'FleetStore.reserve_get_cancel', _FLT_SKIP(''))
+for _prop in ('C02', 'C04', 'C06'):
+    silent(_prop, 'fleet-cancel-shortcut-that-still-wakes-up', _FLT_SKIP('    self._trigger_reserve_get(None)\n'))
+
+# ---- C19.R2: ordering by an address-bearing repr, through an event attribute (seed C19-d)
+fire('C19', 'fleet-put-priority-tie-break-by-process-repr (seed C19-d)', 'C19.R2', 'fleet_store.py',
+     lambda p: M.replace_node(p, S_FLT, 'FleetStore.reserve_put', M.assign_to('event.priority_to_put'),
+                              'event.priority_to_put = (priority, str(event.requesting_process))'))
+silent('C19', 'fleet-put-priority-tie-break-by-clock',
+       lambda p: M.replace_node(p, S_FLT, 'FleetStore.reserve_put', M.assign_to('event.priority_to_put'),
+                                'event.priority_to_put = (priority, self.env.now)'))
+
+# ---- C04.R2: every put arms its own timer (seed C04-d)
+fire('C04', 'filter-store-coalesces-trigger-timers (seed C04-d)', 'C04.R2', 'ReservablePriorityReqFilterStore.put',
+     lambda p: M.replace_node(p, S_FS, 'ReservablePriorityReqFilterStore._do_put', M.stmt_calling('self.env.process', '_add_trigger_event'),
+                              lambda s_: 'if getattr(self, "_trigger_process", None) is None or not self._trigger_process.is_alive:\n    self._trigger_process = self.env.process(self._add_trigger_event())'))
+
+# ---- C05.R4: binary-search insertion into the sorted request queue (seed C05-d)
+_PRQ = 'base/priority_req_store.py'
+def _sorted_queue_bisect(which):
+    def build(p):
+        s = p.modules[_PRQ].src
+        old = "        super().append(item)\n        super().sort(key=lambda e: e.key)"
+        if old not in s:
+            raise M.Stale('SortedQueue.append body not found')
+        new = ("        if not self or self[-1].key <= item.key:\n            super().append(item)\n            return\n"
+               f"        keys = [e.key for e in self]\n        super().insert({which}(keys, item.key), item)")
+        return {_PRQ: s.replace(old, new, 1).replace('import simpy,random', f'import simpy,random\nfrom bisect import {which}', 1)}
+    return build
+fire('C05', 'sorted-queue-inserts-with-bisect-left (seed C05-d)', 'C05.R4', 'SortedQueue.append', _sorted_queue_bisect('bisect_left'))
+silent('C05', 'sorted-queue-inserts-with-bisect-right', _sorted_queue_bisect('bisect_right'))
+
+# ---- C07.R1: the loop variable shadows the token parameter (seed C07-d); pop(index(token)) is a removal of the token
+fire('C07', 'slotted-do-put-token-compared-with-itself (seed C07-d)', 'C07.R', 'BeltStore',
+     lambda p: {S_SLOT: p.modules[S_SLOT].src.replace('def _do_put(self, put_event, item):', 'def _do_put(self, event, item):', 1).replace(
+         '(event for event in self.reservations_put if event == put_event and event.requesting_process == self.env.active_process)',
+         '(event for event in self.reservations_put if event == event and event.requesting_process == self.env.active_process)', 1)})
+silent('C07', 'prs-cancel-removes-token-by-index',
+       lambda p: M.replace_node(p, S_PRS, 'ReservablePriorityReqStore.reserve_get_cancel', M.stmt_calling('self.reservations_get.remove'),
+                                'self.reservations_get.pop(self.reservations_get.index(get_event_to_cancel))'))
